@@ -14,7 +14,7 @@ GEN = []
 LEAN = ["Ymq.Props.C19"]
 AUDIT = "Ymq.Audit.C19"
 THEOREMS = ["Ymq.C19." + t for t in (
-    "crt_symmetric crt_sparse_symmetric perm_sign snf_ops_unimodular_partial snf_diag snf_reduce_cols_iso_partial echelon_det_partial").split()]
+    "crt_symmetric crt_sparse_symmetric perm_sign snf_ops_unimodular_partial snf_diag snf_reduce_cols_iso_partial echelon_det_partial det_exact_partial").split()]
 HYPOTHESES = ["inv_mod64_spec = Ymq.IntMat.InvSpec (theorems crt_symmetric, crt_sparse_symmetric): arith::inv_mod64(a, p) returns Some(i) with "
               "i < p and a*i = 1 (mod p) whenever p > 1 and gcd(a, p) = 1 (property C08); the driver instantiates it with the C08 model invMod64"]
 PROFILES = ["release", "chk"]
@@ -1662,7 +1662,9 @@ CLAIM = ("Lean theorems, for all inputs, about executable models of intdense.rs:
          "its diagonal multiplies to h), snf_reduce_cols_iso_partial (the whole column phase reduce_cols is one automorphism phi of (Z/h)^n: relation "
          "module of the output = phi-image of the input's, q = matrix of phi, quotient groups isomorphic; same path), echelon_det_partial (reference echelon builder EchP in plain residues with sequential elimination: whenever "
          "the add/det determinant routine returns d for an n x n matrix, d = determinant mod p, sign included, rejected rows give 0; no assumption on "
-         "inv_mod64 or primality). The models (also of the Montgomery-form echelon builder, det_matz, CRTDetBuilder with its shared echelons, the "
+         "inv_mod64 or primality), det_exact_partial (end to end on the reference pipeline: residues of the add/det routine for pairwise coprime moduli "
+         "+ crt = Matrix.det over Z of the integer matrix, sign included, when -P < 2 det <= P; the bound is an input, the f64 estimate that is "
+         "meant to guarantee it is not modelled). The models (also of the Montgomery-form echelon builder, det_matz, CRTDetBuilder with its shared echelons, the "
          "lattice-index candidate selection and the whole SmithNormalForm reduction incl. the I256 path) are tied to the code by differential runs in both "
          "build profiles; a Python exact-integer oracle (Bareiss determinant, diagonalisation modulo the determinant, gcd of minors) judges every "
          "implementation answer: determinants with sign, dense/sparse agreement, lattice index inside the bracket, diagonal presentation with product = "
